@@ -793,6 +793,7 @@ def _judge(chk, groups):
 # ---------------------------------------------------------------- the check
 def run(chk):
     quick = chk.tier == 'quick'
+    boot()
     import time as _t
     t0 = [_t.time()]
 
@@ -892,7 +893,7 @@ def run(chk):
     stage('classes')
 
     # 4 code -> spec: fuzz
-    seeds = [chk.seed * 7919 + 17 * i + 1 for i in range(1500 if quick else 60000)]
+    seeds = [chk.seed * 7919 + 17 * i + 1 for i in range(1200 if quick else 40000)]
     for part in batches(seeds, 30000):
         res = pool_map(_fuzz, part)
         for sd in part:
